@@ -17,7 +17,11 @@ CONSTANTS PExps, EExps,        \* exponent sets
           ObsSets,             \* set of sets of observable tags
           FloorCmp,            \* "lt12" = floor applied when product < 1e-12 (as found); "le13" = seeded defect
           Whitelist,           \* the permutable-observable whitelist of the code
-          DMRGFirst            \* FALSE = create_impl as found (Lindblad operators win over the solver)
+          DMRGFirst,           \* FALSE = create_impl as found in round 0 (Lindblad operators win over the solver)
+          Srcs,                \* where the noise model comes from: "config" (config.noise_model) or "device"
+                               \*   (prefer_device_noise_model=True, the device's default_noise_model)
+          GateReads            \* which noise model the DMRG refusal reads: "config" = mps_config.noise_model only
+                               \*   (DMRGBackendImpl.__init__ as found), "effective" = the model PulserData uses
 
 NoiseClasses == {"none", "lindblad", "stochastic", "spam_meas", "lindblad+stochastic"}
 Solvers == {"tdvp", "dmrg"}
@@ -30,7 +34,11 @@ HasNoise(nc) == nc # "none"
 NonPermutable == {"state", "fidelity", "expectation", "entanglement_entropy", "custom"}
 AllTags == {"bitstrings", "occupation", "correlation_matrix", "energy", "energy_variance", "energy_second_moment"} \cup NonPermutable
 
-Cfgs == [p : PExps, e : EExps, dt : AutosaveDts, obs : ObsSets, reorder : BOOLEAN, solver : Solvers, noise : NoiseClasses]
+\* cfg.noise is the class of the EFFECTIVE noise model (the one PulserData simulates: the device's when
+\* cfg.src = "device", the config's otherwise).  With src = "device" the config's own noise_model is empty.
+Cfgs == [p : PExps, e : EExps, dt : AutosaveDts, obs : ObsSets, reorder : BOOLEAN, solver : Solvers, noise : NoiseClasses, src : Srcs]
+ConfigNoise(c) == IF c.src = "config" THEN c.noise ELSE "none"          \* what mps_config.noise_model holds
+GateNoise(c) == IF GateReads = "config" THEN ConfigNoise(c) ELSE c.noise
 
 VARIABLES pc, cfg, eff, out
 vars == <<pc, cfg, eff, out>>
@@ -48,11 +56,12 @@ Construct ==    \* MPSConfig.__init__
                        reorder |-> cfg.reorder /\ (cfg.obs \subseteq Whitelist)]           \* &= check_permutable_observables()
             /\ pc' = "constructed" /\ UNCHANGED <<cfg, out>>
 
-CreateImpl ==   \* create_impl(data, config)
+CreateImpl ==   \* MPSBackend.run -> PulserData (effective noise -> lindblad_ops) -> create_impl(data, config)
     /\ pc = "constructed"
-    /\ LET gate == cfg.solver = "dmrg" /\ HasNoise(cfg.noise) IN
-       out' = IF DMRGFirst /\ gate THEN "rejected:dmrg+noise"
-              ELSE IF HasLindblad(cfg.noise) THEN "impl:noisy-tdvp"
+    /\ LET gate == cfg.solver = "dmrg" /\ HasNoise(GateNoise(cfg)) IN
+       out' = IF DMRGFirst /\ cfg.solver = "dmrg"                                  \* solver tested first: DMRGBackendImpl(...)
+              THEN (IF gate THEN "rejected:dmrg+noise" ELSE "impl:dmrg")             \*   whatever data.lindblad_ops holds
+              ELSE IF HasLindblad(cfg.noise) THEN "impl:noisy-tdvp"                  \* data.lindblad_ops non-empty
               ELSE IF gate THEN "rejected:dmrg+noise"
               ELSE IF cfg.solver = "dmrg" THEN "impl:dmrg" ELSE "impl:tdvp"
     /\ pc' = "done" /\ UNCHANGED <<cfg, eff>>
